@@ -99,6 +99,12 @@ def lean_audit(prop):
         if k in kerrs:
             res["problems"].append("source tie: the function behind kernel `%s` in /repo/src could not be re-translated (%s)" % (k, kerrs[k]))
     res["kernels_retranslated"] = KERNELS_OF.get(prop, [])
+    # trait-method implementations of the property's anchor files: an override of a provided method (Iterator::nth, …)
+    # changes what existing callers get without touching any translated function
+    inv = inventory_problems(prop)
+    res["trait_impl_blocks_checked"] = inv[1]
+    for msg in inv[0]:
+        res["problems"].append("source tie: " + msg + " - code the model does not cover")
     ok, out = build_lean([mod, "driver"])
     res["built"] = ok
     if not ok:
@@ -147,6 +153,23 @@ def lean_audit(prop):
     if len(res["theorems"]) != len(names):
         res["problems"].append("audited %d of %d theorems" % (len(res["theorems"]), len(names)))
     return res
+
+def anchor_files(prop):
+    for ln in open(os.path.join(VERIF, "properties.jsonl")):
+        ln = ln.strip()
+        if not ln: continue
+        p = json.loads(ln)
+        if p.get("id") == prop:
+            return [f[4:] for f in p.get("anchors", {}).get("files", []) if f.startswith("src/")]
+    return []
+
+def inventory_problems(prop):
+    """(problems, number of `impl Trait for Type` blocks compared) for the anchor files of the property"""
+    import inventory as INV
+    pinned = json.load(open(os.path.join(VERIF, "py", "trait_impls.json")))
+    cur = INV.scan(os.path.join(REPO, "src"))
+    files = anchor_files(prop)
+    return INV.diff(pinned, cur, files), sum(len(cur.get(f, [])) for f in files)
 
 # ------------------------------------------------------------------------------------------ execution
 def run_stream(binary, text, timeout=1200):
